@@ -260,3 +260,70 @@ Proof.
 Qed.
 Lemma mb_gases_shape : mb_gas_in_initially_false = true /\ mb_gas_in_sites_fixed_pressure = 1%nat.
 Proof. split; reflexivity. Qed.
+
+(* ---------------------------------------------------------------- initial mole numbers (tidy_gas_phase) *)
+(* without critical constants: n_i = p_i V / R / T, P = sum p_i  =>  P V = n R T;
+   with Peng-Robinson: x_i = p_i / P, n_i = x_i V / V_m with V_m the root returned by calc_PR  =>  sum n_i = V / V_m *)
+Lemma tidy_leaves :
+  (forall p V T, evalR (env_of [p; V; T]) td_moles_ideal_fp = p * V / (820597 / 10000000) / T) /\
+  (forall p V T, evalR (env_of [p; V; T]) td_moles_ideal_fv = p * V / (820597 / 10000000) / T) /\
+  (forall p, evalR (env_of [p]) td_P_inc_fp = p) /\ (forall p, evalR (env_of [p]) td_P_inc_fv = p) /\
+  (forall p P, evalR (env_of [p; P]) td_x = p / P) /\
+  (forall x V Vm, evalR (env_of [x; V; Vm]) td_moles_pr = x * V / Vm).
+Proof.
+  unfold td_moles_ideal_fp, td_moles_ideal_fv, td_P_inc_fp, td_P_inc_fv, td_x, td_moles_pr.
+  repeat split; intros; ev; reflexivity.
+Qed.
+
+Definition init_ideal (e_n e_P : rexpr) (V T : R) (ps : list R) : R * R :=
+  fold_left (fun st p => (fst st + evalR (env_of [p]) e_P, snd st + evalR (env_of [p; V; T]) e_n)) ps (0, 0).
+Definition init_pr (e_x e_n : rexpr) (V Vm : R) (ps : list R) : list R :=
+  map (fun p => evalR (env_of [evalR (env_of [p; sumR ps]) e_x; V; Vm]) e_n) ps.
+
+Theorem initial_ideal_for : forall e_n e_P Rg,
+  (forall p V T, evalR (env_of [p; V; T]) e_n = p * V / Rg / T) -> (forall p, evalR (env_of [p]) e_P = p) ->
+  forall V T ps, Rg <> 0 -> T <> 0 ->
+    let st := init_ideal e_n e_P V T ps in fst st = sumR ps /\ fst st * V = snd st * Rg * T.
+Proof.
+  intros e_n e_P Rg Hn HP V T ps HR HT st. subst st. unfold init_ideal.
+  assert (G : forall ps P0 n0, P0 * V = n0 * Rg * T ->
+     let st := fold_left (fun st p => (fst st + evalR (env_of [p]) e_P, snd st + evalR (env_of [p; V; T]) e_n)) ps (P0, n0) in
+     fst st = P0 + sumR ps /\ fst st * V = snd st * Rg * T).
+  { induction ps0 as [|p ps0 IH]; intros P0 n0 H0; simpl.
+    - split; lra.
+    - destruct (IH (P0 + evalR (env_of [p]) e_P) (n0 + evalR (env_of [p; V; T]) e_n)) as [E1 E2].
+      + rewrite HP, Hn. replace ((n0 + p * V / Rg / T) * Rg * T) with (n0 * Rg * T + p * V) by (field; split; assumption). lra.
+      + split; [rewrite E1, HP; lra | exact E2]. }
+  destruct (G ps 0 0) as [E1 E2]; [lra |]. split; [rewrite E1; lra | exact E2].
+Qed.
+
+Theorem initial_pr_for : forall e_x e_n,
+  (forall p P, evalR (env_of [p; P]) e_x = p / P) -> (forall x V Vm, evalR (env_of [x; V; Vm]) e_n = x * V / Vm) ->
+  forall V Vm ps, sumR ps <> 0 -> Vm <> 0 ->
+    init_pr e_x e_n V Vm ps = map (fun p => p / sumR ps * V / Vm) ps /\ sumR (init_pr e_x e_n V Vm ps) = V / Vm.
+Proof.
+  intros e_x e_n Hx Hn V Vm ps HP HV.
+  assert (E : init_pr e_x e_n V Vm ps = map (fun p => p / sumR ps * V / Vm) ps).
+  { unfold init_pr. apply map_ext. intros p. rewrite Hx, Hn. reflexivity. }
+  split; [exact E |]. rewrite E.
+  replace (map (fun p => p / sumR ps * V / Vm) ps) with (map (fun x => x * (V / Vm)) (map (fun p => p / sumR ps) ps))
+    by (rewrite map_map; apply map_ext; intros; unfold Rdiv; ring).
+  rewrite sumR_map_mul_r, sumR_map_div. field. split; assumption.
+Qed.
+
+Lemma initial_moles_all :
+  (forall V T ps, T <> 0 ->
+     let st := init_ideal td_moles_ideal_fp td_P_inc_fp V T ps in
+     fst st = sumR ps /\ fst st * V = snd st * (820597 / 10000000) * T) /\
+  (forall V T ps, T <> 0 ->
+     let st := init_ideal td_moles_ideal_fv td_P_inc_fv V T ps in
+     fst st = sumR ps /\ fst st * V = snd st * (820597 / 10000000) * T) /\
+  (forall V Vm ps, sumR ps <> 0 -> Vm <> 0 ->
+     init_pr td_x td_moles_pr V Vm ps = map (fun p => p / sumR ps * V / Vm) ps /\ sumR (init_pr td_x td_moles_pr V Vm ps) = V / Vm).
+Proof.
+  destruct tidy_leaves as (T1 & T2 & T3 & T4 & T5 & T6).
+  assert (HR : 820597 / 10000000 <> 0) by lra.
+  exact (conj (fun V T ps HT => initial_ideal_for _ _ _ T1 T3 V T ps HR HT)
+        (conj (fun V T ps HT => initial_ideal_for _ _ _ T2 T4 V T ps HR HT)
+              (initial_pr_for _ _ T5 T6))).
+Qed.
